@@ -205,7 +205,7 @@ class Gen:
         self.r = rng
         self.o = dict(percent=False, f10=True, empties=True, adjacent=False, maxstmts=7,
                       emptydoc=False, svc_comment=False, multi_indent=False, empty_after_import=False,
-                      strws=False, glue=True, cmt_tab=False)
+                      strws=False, glue=True, cmt_tab=False, ff=False)
         self.svcnames = []
         self.in_field = 0       # inside the members of a struct: free gaps are "fld"
         if opts:
@@ -258,6 +258,9 @@ class Gen:
             s += r.choice(["日本語", "é", "\\n", "\\", "'", "`", "@doc", "}", "µs", "\u00a0", "\u2028"])
         if self.o["strws"] and r.random() < 0.3:
             s += r.choice(["a\tb", "\t", "x \n y", "x\n  y", "x  \ny"])
+        if self.o["ff"] and r.random() < 0.3:
+            # form feed / vertical tab: "end of line" / "end of cell" for the tabwriter
+            s += r.choice(["a\x0cb", "\x0b", "x\x0c", "\x0c\x0by"])
         if not s and not (self.o["empties"] and r.random() < 0.3):
             s = "v"
         return '"' + s + '"'
@@ -280,6 +283,8 @@ class Gen:
             s += ' d:"' + "y" * r.choice([100, 400]) + '"'
         if self.o["strws"] and r.random() < 0.25:
             s += r.choice(["\tk:\"v\"", "\n k:\"v\"", " \nk:\"v\"", "\n\tk:\"v\""])
+        if self.o["ff"] and r.random() < 0.25:
+            s += r.choice(["\x0ck:\"v\"", " k:\"\x0b\"", "\x0b"])
         return "`" + s + "`"
 
     # ---- grammar -------------------------------------------------------------
@@ -671,7 +676,7 @@ CWORDS = ["c1", "todo", "note: x", "see /a/b", "αβ", "a*b", "x = y", "{", "}",
 
 
 class Deco:
-    def __init__(self, rng, odd=0.15, pc=0.15, percent=False, inline=1, multi_indent=False, f10=True, glue=True, cmt_tab=False):
+    def __init__(self, rng, odd=0.15, pc=0.15, percent=False, inline=1, multi_indent=False, f10=True, glue=True, cmt_tab=False, ff=False):
         self.r = rng
         # 0: comments only at conventional line ends / on their own lines between elements
         # 1: + single-line block comments between tokens of one line
@@ -681,6 +686,7 @@ class Deco:
         self.f10 = f10
         self.o_glue = glue
         self.cmt_tab = cmt_tab
+        self.ff = ff
         self.odd = odd     # probability of an unconventional layout in a free gap
         self.pc = pc       # comment density
         self.percent = percent
@@ -696,6 +702,8 @@ class Deco:
             s += r.choice(["\t", "\tx", " \t ", "\t\t", "  ", "   "])
         elif r.random() < 0.05:
             s += " "          # a trailing blank
+        if self.ff and r.random() < 0.3:
+            s += r.choice(["\x0c", "\x0bz", " \x0c w", "\x0b\x0c"])
         return s
 
     def line_comment(self):
@@ -1062,7 +1070,7 @@ def generate(rng, opts=None, odd=None, pc=None, inline=1):
     g = Gen(rng, opts)
     d = Deco(rng, odd=odd if odd is not None else rng.choice([0.0, 0.05, 0.15, 0.3]),
              pc=pc if pc is not None else rng.choice([0.0, 0.05, 0.15, 0.3, 0.45]),
-             percent=g.o["percent"], inline=inline, multi_indent=g.o["multi_indent"], f10=g.o["f10"], glue=g.o["glue"], cmt_tab=g.o["cmt_tab"])
+             percent=g.o["percent"], inline=inline, multi_indent=g.o["multi_indent"], f10=g.o["f10"], glue=g.o["glue"], cmt_tab=g.o["cmt_tab"], ff=g.o["ff"])
     if rng.random() < 0.015:
         # a file that holds nothing but comments
         text = ""
